@@ -1032,6 +1032,8 @@ def run(ctx: Ctx) -> None:
 
 # ---------------------------------------------------------------------------
 WITNESSES = [
+    {"name": "seeded-C02-12", "file": "algos/parameter_space.py", "old": "        if current_name in self.uncertain_variables:\n            position = self.uncertain_variables.index(current_name)\n            self.uncertain_variables[position] = new_name\n            dict_ = self.__uncertain_variables_to_definitions\n", "new": "        if current_name in self.uncertain_variables:\n            self.uncertain_variables.remove(current_name)\n            self.uncertain_variables.append(new_name)\n            dict_ = self.__uncertain_variables_to_definitions\n", "expect": "2.10", "note": "ParameterSpace.rename_variable moves the renamed random variable to the end of u"},
+    {"name": "seeded-C02-11", "file": "algos/design_space.py", "old": "\n        self.__update_current_metadata()\n        if self.__current_value:\n            self._check_current_names()\n\n", "new": "\n        if self.__current_value:\n            self._check_current_names()\n\n        # Refresh the cached data once the new value has been validated.\n        self.__update_current_metadata()\n\n", "expect": "2.4", "note": "set_current_value refreshes the cached current-value arrays only after the valid"},
     {"name": "value-check-outside-the-rollback", "file": DSF, "old": "            try:\n                array_value = atleast_1d(value)\n                self._check_value(array_value, name)\n", "new": "            array_value = atleast_1d(value)\n            self._check_value(array_value, name)\n            try:\n", "expect": "2.4"},
     {"name": "current-value-validated-before-refresh", "file": DSF, "old": "        self.__update_current_metadata()\n        if self.__current_value:\n            self._check_current_names()", "new": "        if self.__current_value:\n            self._check_current_names()\n        self.__update_current_metadata()", "expect": "2.4"},
     {"name": "seeded-C02-9", "file": "algos/design_space.py", "old": "        \"\"\"\n        return self.unnormalize_vect(vector, no_check=no_check, out=out)\n\n", "new": "        \"\"\"\n        return self.unnormalize_vect(vector, no_check, out=out)\n\n", "expect": "2.8", "note": "untransform_vect passes no_check positionally, so it lands on minus_lb"},
